@@ -41,7 +41,7 @@ DEDICATED = (InvalidFramework, InvalidCascade, InvalidDatabook, InvalidProgramBo
 
 def base_spec():
     spec = simspace.combined_spec(0.25, v=0.3, dur=1.0, tj=0.2, pa=0.3, d=0.01, br=5.0, prog=True)
-    spec["pars"] += [dict(name="f1", fmt=None, fn="vr*2"), dict(name="f2", fmt=None, fn="f1+0.1")]
+    spec["pars"] += [dict(name="f1", fmt=None, fn="vr*2"), dict(name="f2", fmt=None, fn="f1+0.1"), dict(name="dflt", fmt="number", val=3.0, default=3.0)]  # dflt: a databook quantity with a framework default
     spec["characs"].append(dict(name="sv", comps=["sus", "vac"]))
     spec["cascades"] = {"main": [("everyone", "alive"), ("sus or vac", "sv"), ("vaccinated", "vac")]}
     return spec
@@ -163,6 +163,12 @@ def cat_framework(model, spec):
             m = X.clone(model)
             X.set_cell(m, sheet, b, "Display Name", X.get_cell(model, sheet, a, "Display Name"))
             add("duplicate-display-name", "reject", f"{sheet}/{a},{b}", m)
+    # a display name used on two different sheets (every ordered pair of sheets, first row of each)
+    sheets_ = [sh for sh in ("Compartments", "Characteristics", "Parameters", "Interactions") if sh in model and X.rows(model, sh)]
+    for sa, sb in itertools.permutations(sheets_, 2):
+        m = X.clone(model)
+        X.set_cell(m, sb, X.rows(model, sb)[0], "Display Name", X.get_cell(model, sa, X.rows(model, sa)[0], "Display Name"))
+        add("duplicate-display-name-across-sheets", "reject", f"{sb}/{X.rows(model, sb)[0]} = {sa}/{X.rows(model, sa)[0]}", m)
     if X.rows(model, "Parameters") and X.rows(model, "Compartments"):
         cname = X.rows(model, "Compartments")[0]
         pn = X.rows(model, "Parameters")[-1]
@@ -426,6 +432,15 @@ def _try_databook(blob, F):
         err_b = e
     if err_a is not None and not isinstance(err_a, DEDICATED):
         return err_a
+    if err_a is None and err_b is None:
+        # route C: the object that was read and validated on route A is handed to a project (which validates it again) and run
+        try:
+            P = at.Project(framework=F, databook=D, do_run=False)
+            P.run_sim(P.parsets[0], store_results=False)
+        except Exception as e:  # noqa
+            e2 = RuntimeError(f"accepted from the file and validated, but the validated object then failed in a project: {type(e).__name__}: {e}")
+            e2.__traceback__ = e.__traceback__
+            return e2
     return err_b
 
 
@@ -506,6 +521,18 @@ def run_databook_mutations(case):
             wb = X.load(blob)
             wb[ws.title].delete_rows(h + 1, 1)
             extra.append(("delete-population-row", f"{ws.title}/{ws.cell(row=h, column=1).value}", X.dump(wb)))
+    # a quantity with a framework default may be left out of the databook altogether (its sheet stays): accepted, on every route
+    for ws in wb0.worksheets:
+        for h in [r for r in range(1, ws.max_row + 1) if ws.cell(row=r, column=1).value == "P dflt" and ws.cell(row=r, column=2).value == "Provenance"]:
+            wb = X.load(blob)
+            n_ = 1
+            while ws.cell(row=h + n_, column=1).value is not None:
+                n_ += 1
+            wb[ws.title].delete_rows(h, n_ + 1)
+            counters["mut_omit-table-with-default"] = counters.get("mut_omit-table-with-default", 0) + 1
+            err = _try_databook(X.dump(wb), w.F)
+            if err is not None:
+                vs.append(V(f"valid-databook-rejected:omit-table-with-default:{type(err).__name__}@{raise_site(err)}", f"a databook without the table of a quantity that has a framework default failed: {type(err).__name__}: {str(err)[:160]}", None))
     wb = X.load(blob)
     wb["Population Definitions"].delete_rows(3, 1)
     extra.append(("delete-population-definition", "Population Definitions/row 3", X.dump(wb)))
